@@ -141,6 +141,69 @@ fn main() {
         emit(&out_dir, &mut names, "n_o2m", flow.with_process(&a, "n_o2m_a").with_cluster(&w, "n_o2m_w").generate_embedded("e4_flows"));
     }
 
+    use e4_flows::c32;
+    local!(w_max_top, c32::w_max_top, 1);
+    local!(w_min_top, c32::w_min_top, 1);
+    local!(w_max_tick, c32::w_max_tick, 1);
+    local!(w_min_tick, c32::w_min_tick, 1);
+    local!(w_first_top, c32::w_first_top, 1);
+    local!(w_last_top, c32::w_last_top, 1);
+    local!(w_first_tick, c32::w_first_tick, 1);
+    local!(w_last_tick, c32::w_last_tick, 1);
+    local!(w_count_top, c32::w_count_top, 1);
+    local!(w_count_tick, c32::w_count_tick, 1);
+    local!(w_is_empty_tick, c32::w_is_empty_tick, 1);
+    local!(w_weaken_ordering, c32::w_weaken_ordering, 1);
+    local!(w_make_totally_ordered, c32::w_make_totally_ordered, 1);
+    local!(w_weaken_retries, c32::w_weaken_retries, 1);
+    local!(w_make_exactly_once, c32::w_make_exactly_once, 1);
+    local!(k_weaken_ordering, c32::k_weaken_ordering, 1);
+    local!(k_make_totally_ordered, c32::k_make_totally_ordered, 1);
+    local!(k_weaken_retries, c32::k_weaken_retries, 1);
+    local!(k_make_exactly_once, c32::k_make_exactly_once, 1);
+    local!(k_value_counts_top, c32::k_value_counts_top, 1);
+    local!(k_value_counts_tick, c32::k_value_counts_tick, 1);
+    local!(ks_into_singleton_bv, c32::ks_into_singleton_bv, 1);
+    local!(ks_into_singleton_unb, c32::ks_into_singleton_unb, 1);
+    local!(ks_into_singleton_tick, c32::ks_into_singleton_tick, 1);
+    local!(ks_get_max_key_top, c32::ks_get_max_key_top, 1);
+    local!(ks_get_max_key_tick, c32::ks_get_max_key_tick, 1);
+    local!(w_repeat_with_keys_tick, c32::w_repeat_with_keys_tick, 2);
+    {
+        let mut flow = hydro_lang::compile::builder::FlowBuilder::new();
+        let a = flow.process::<net::A>();
+        let b = flow.process::<net::B>();
+        net::n_hop_count(a.embedded_input("in0"), &b);
+        emit(&out_dir, &mut names, "n_hop_count", flow.with_process(&a, "n_hop_count_a").with_process(&b, "n_hop_count_b").generate_embedded("e4_flows"));
+    }
+
+    use e4_flows::sec;
+    local!(sl_batch_snap_state, sec::sl_batch_snap_state, 1);
+    local!(sl_keyed, sec::sl_keyed, 1);
+    local!(sl_bounded_value_batch, sec::sl_bounded_value_batch, 1);
+    local!(sl_state_null, sec::sl_state_null, 1);
+    local!(at_counter, sec::at_counter, 2);
+    local!(at_keyed_counter, sec::at_keyed_counter, 2);
+    local!(at_counter_nonatomic, sec::at_counter_nonatomic, 2);
+    local!(q_join_responses, sec::q_join_responses, 2);
+    macro_rules! quorum {
+        ($name:ident, $path:path, $min:expr, $max:expr) => {{
+            let mut flow = hydro_lang::compile::builder::FlowBuilder::new();
+            let process = flow.process::<()>();
+            $path(process.embedded_input("in0"), $min, $max);
+            emit(&out_dir, &mut names, stringify!($name), flow.with_process(&process, stringify!($name)).generate_embedded("e4_flows"));
+        }};
+    }
+    quorum!(q_collect_11, sec::q_collect, 1, 1);
+    quorum!(q_collect_22, sec::q_collect, 2, 2);
+    quorum!(q_collect_23, sec::q_collect, 2, 3);
+    quorum!(q_collect_33, sec::q_collect, 3, 3);
+    quorum!(q_collect_13, sec::q_collect, 1, 3);
+    quorum!(q_resp_22, sec::q_collect_with_response, 2, 2);
+    quorum!(q_resp_23, sec::q_collect_with_response, 2, 3);
+    quorum!(q_resp_13, sec::q_collect_with_response, 1, 3);
+    quorum!(q_unord_23, sec::q_collect_unordered, 2, 3);
+
     let mut mods = String::new();
     for n in &names {
         mods.push_str(&format!(
